@@ -14,7 +14,7 @@ from typing import Any, Dict, List, Optional, Tuple
 
 from rpv.checks.c16 import shaped_input
 from rpv.checks.inproc_util import candidate_days, clean_cut
-from rpv.cli_core import cli_histories, cli_profile, decode_trace
+from rpv.cli_core import cli_histories, cli_profile, decode_trace, generator_crash
 from rpv.drive_cli import COUNTRY_LANGUAGES, COUNTRY_METHODS, Workspace
 from rpv.model import Model
 from rpv.oracle.reports import FullReport, num, open_positions, snap
@@ -74,6 +74,10 @@ def _one(ctx: Any, case: Dict[str, Any], name: str) -> None:
         ctx.count("executions")
         ctx.count("valid_cases")
         if res.exit != 0:
+            crash = generator_crash(res.stderr, "open_positions.py")
+            if crash:
+                ctx.violation("openpositions.generator-crashed", {"error": crash}, case)
+                return
             ctx.count("unobservable")
             ctx.tag("tag_unobservable", f"cli exit {res.exit}: {res.stderr.strip().splitlines()[-1][:140] if res.stderr.strip() else ''}")
             return
